@@ -2,6 +2,8 @@ SPECIFICATION Spec
 CONSTANTS
   Cap = 2
   MaxId = 6
+  Kinds = {"S", "N", "Q", "A"}
+  BatchSizes = {1, 2, 3}
   Defects = {}
 VIEW View
-INVARIANTS Accounting CountMatches Bounded
+INVARIANTS Accounting CountMatches Bounded BatchSenders
